@@ -78,6 +78,17 @@ def make_handlers(history, reply_delay=None):
             history.add(ev='err-reply', cls='ErrHandler', exc=type(self.exc).__name__, msg=self.incoming_message,
                         reply=r, thread=threading.get_ident())
             return r
+    class RaisingHandler(AbstractHandler):
+        """registered with the name of the exception its reply() raises: the server hands that exception to the ERR handler"""
+        def __init__(self, message, excname, *args):
+            AbstractHandler.__init__(self, message)
+            self.excname = excname
+            history.add(ev='ctor', cls='RaisingHandler', msg=message, thread=threading.get_ident(), args=[excname] + list(args))
+
+        def reply(self):
+            raise {'KeyError': KeyError, 'ValueError': ValueError, 'RuntimeError': RuntimeError,
+                   'IndexError': IndexError}[self.excname]('raised by the handler')
+    make_handlers.Raising = RaisingHandler
     return OkHandler, OtherHandler, ErrHandler
 
 
@@ -217,6 +228,18 @@ def check_connection(evs, sent_payload, received, ending, registered, kind, args
     if kind == 'degenerate':
         if len(ctors) > 1:
             out.append(('more-than-one-handler-invocation', {'n': len(ctors)}))
+        return out
+    want0 = expected_outcome(sent_payload, registered)
+    if want0[0] == 'ok' and str(want0[1]).startswith('Raising:'):
+        # the registered handler is invoked and raises: the ERR handler answers, and is given that very exception
+        exc = want0[1].split(':', 1)[1]
+        kinds = [(e['ev'], e.get('cls'), e.get('exc')) for e in ctors]
+        if kinds != [('ctor', 'RaisingHandler', None), ('err-ctor', 'ErrHandler', exc)] or len(replies) != 1 or \
+                replies[0]['ev'] != 'err-reply':
+            out.append(('exception-of-a-registered-handler-not-handed-to-ERR', {'handlers': kinds, 'expected_exception': exc,
+                                                                               'replies': len(replies)}))
+        elif received != replies[0]['reply'].encode('utf-8'):
+            out.append(('client-received-other-bytes-than-the-reply', {'received': received[:80]}))
         return out
     if len(ctors) != 1 or len(replies) != 1:
         out.append(('not-exactly-one-handler-invocation', {'ctors': len(ctors), 'replies': len(replies)}))
